@@ -86,7 +86,17 @@ def _imports(repo, rel):
     return out
 
 
+_CLOSURE_CACHE = {}
+
+
 def closure(repo, roots, max_depth=6):
+    key = (id(repo), repo.digest(), tuple(roots), max_depth)
+    if key not in _CLOSURE_CACHE:
+        _CLOSURE_CACHE[key] = _closure(repo, roots, max_depth)
+    return _CLOSURE_CACHE[key]
+
+
+def _closure(repo, roots, max_depth=6):
     """Functions reachable from ``roots`` [(rel, qual)] over name-resolved
     calls inside the package (over-approximate on method names that only
     Table defines; ambiguous names need a table-looking receiver)."""
@@ -126,6 +136,8 @@ def closure(repo, roots, max_depth=6):
 TOL = {'isclose', 'allclose', 'assert_allclose', 'assert_almost_equal'}
 ROUND = {'around', 'round', 'round_', 'rint', 'floor', 'ceil', 'trunc',
          'fix', 'clip', 'nan_to_num'}
+# ufunc.reduceat returns the *next* element for an empty segment
+SEGMENT = {'reduceat'}
 NARROW = {'float32', 'float16', 'half', 'single', 'int8', 'int16', 'int32',
           'int64', 'uint8', 'uint16', 'uint32', 'uint64', 'intc', 'intp',
           'int_', 'int'}
@@ -179,6 +191,8 @@ def rule_numloss(repo, col, roots=(), skip_files=()):
                 what = last
             elif last in ROUND and (isinstance(f, ast.Name) or (
                     dotted(f.value) in ('np', 'numpy', 'math'))):
+                what = last
+            elif last in SEGMENT:
                 what = last
             elif last == 'astype' and n.args:
                 w = _dtype_word(n.args[0])
@@ -750,9 +764,15 @@ class _ArgAlias:
             if isinstance(st, ast.For):
                 self.scan_expr(st.iter, env)
                 env = dict(env)
+                # the items of an argument are the caller's objects too:
+                # `for m in md: m[k] = v` changes the caller's mappings
+                src = self.alias_of(st.iter, env) if isinstance(
+                    st.iter, ast.Name) else set()
+                elem = {p if p.endswith('[*]') else p + '[*]' for p in src}
                 for x in ast.walk(st.target):
                     if isinstance(x, ast.Name):
-                        env[x.id] = set()
+                        env[x.id] = set(elem) if isinstance(
+                            st.target, ast.Name) else set()
             else:
                 self.scan_expr(st.test, env)
             out = self.block(st.body, dict(env))
@@ -919,8 +939,16 @@ def closure_scoped(rule_fn, rule_ids, roots):
         # nested functions of a reachable function are reachable
         def pred(f):
             return f in names or any(f.startswith(n + '.') for n in names)
+        saved = {rid: col.scope.get(rid) for rid in rule_ids}
         for rid in rule_ids:
             col.scope[rid] = pred
-        rule_fn(repo, col)
+        try:
+            rule_fn(repo, col)
+        finally:
+            for rid, old in saved.items():
+                if old is None:
+                    col.scope.pop(rid, None)
+                else:
+                    col.scope[rid] = old
     rule.__name__ = 'scoped_' + getattr(rule_fn, '__name__', 'rule')
     return rule
